@@ -197,7 +197,7 @@ class Contract(Contract_):
         self.requires = requires or {}
         self.ensures = ensures or {}
         self.raises = list(raises)
-        self.modifies = list(modifies)
+        self.modifies = list(modifies) if modifies is not None else None
         self.loops = loops or {}
         self.inline = inline
         self.result = result
@@ -398,7 +398,7 @@ class Contract(Contract_):
                     if chosen.when is not None:
                         ex.assume(_as_term(self.eval_clause(ex, chosen.when, oldenv)))
         # havoc the frame
-        for m in self.modifies:
+        for m in (self.modifies or ()):
             base, attr = m.split(".", 1)
             obj = env.lookup(base)
             schema = None
